@@ -61,7 +61,7 @@ def gen_cases(tier, seed):
     if q:
         keep = [c for c in cases if c["type"] != "init"]
         init = [c for c in cases if c["type"] == "init"]
-        must = [c for c in init if c["kind"] == "uhf" and c["norb"] == 4 and tuple(c["nelec"]) in ((2, 1), (2, 2), (3, 1))]
+        must = [c for c in init if c["kind"] == "uhf" and c["norb"] == 4 and tuple(c["nelec"]) in ((2, 1), (2, 2), (3, 1), (3, 2), (4, 2))]
         rest = [c for c in init if c not in must]
         idx = rng.choice(len(rest), size=min(len(rest), 60), replace=False)
         cases = keep + must + [rest[i] for i in sorted(idx)]
@@ -341,6 +341,16 @@ def run_init(case):
         evar = np.vdot(psi, H @ psi) / np.vdot(psi, psi)
         e = np.asarray(trial.calc_energy(jnp.array(w), hd, wd_))
         events.append(judge("init/variational-energy", abs(e[0] - evar), 1e-9 * measure.ham_scale(h0, h1, chol), key + "/variational-energy"))
+    elif kind == "uhf" and case["restricted"] and cls == "rohf-like":
+        # the dn space lies inside the up space: a restricted walker can (and therefore must) represent this single determinant exactly
+        events.append(judge("init/restricted-walker-reproduces-rohf-like-trial", abs(abs(ov_ref) - 1.0), 1e-10, key + "/rohf-like-state", overlap=float(abs(ov_ref))))
+        h0, h1, chol = trials.rand_ham(rng, norb, 2, spin_dep=False)
+        hd = measure.intermediates(t, h0, h1, chol)
+        H = F.hamiltonian(h0, h1[0], h1[1], chol)
+        evar = np.vdot(psi, H @ psi) / np.vdot(psi, psi)
+        e = np.asarray(trial.calc_energy(jnp.array(w), hd, wd_))
+        events.append(judge("init/variational-energy", abs(e[0] - evar), 1e-9 * measure.ham_scale(h0, h1, chol), key + "/variational-energy/rohf-like",
+                            e=complex(e[0]), ref=complex(evar)))
     return {"events": events, "nontrivial": True, "sample": {"kind": kind, "class": cls, "restricted": case["restricted"], "overlap": float(abs(ov_ref))},
             "counters": cnt}
 
